@@ -341,6 +341,8 @@ FP_RANGE_H2O = "range: value outside min..max, candidate phases linearly depende
 FP_MODEL_H2O = "model: constraint violated, candidate phases linearly dependent apart from H2O (collinear columns, cl1 kode 0 / false infeasible)"
 FP_RANGE_MIX = "range: value outside min..max, two or more initial solutions (cl1 in range() returns kode 0 for a non-optimal bound)"
 FP_MINIMAL_TIGHT = "minimal: a reported model strictly contains another, solver tolerance <= 1e-12 (-tolerance 1e-12 / -multiple_precision without INVERSE_CL1MP: cl1 calls a feasible subset infeasible)"
+FP_DELTA_TINY = "delta: adjustment exceeds uncertainty in a solution with near-zero mixing fraction: fraction x excess <= solver tolerance (the solver's unknown is the product f*delta, the printed delta is (f*delta)/f)"
+FP_SIGN_TINY = "sign: negative mixing fraction with |f| x largest concentration of that water <= solver tolerance (cl1 returns kode 0 with x slightly below 0 for a listed water that the final water does not contain)"
 FP_RANGE = "range: value outside its reported min..max"
 FP_RANGE_INV = "range: min > max"
 
@@ -462,7 +464,12 @@ def judge(problem, stoich, out, selstr):
         # ---- (iii) admissibility
         for n in solns:
             if f[n] < -tol:
-                problems.append(("sign: negative mixing fraction", "%s: fraction of solution %d = %r" % (tag, n, f[n])))
+                cmax = max([abs(v) for v in conc[n]["totals"].values()] or [0.0])
+                if abs(f[n]) * cmax <= tol:
+                    problems.append((FP_SIGN_TINY, "%s: fraction of solution %d = %r (declared solver tolerance %g; largest concentration of solution %d is %r mol, |f| x c = %.3g mol) [sign: negative mixing fraction]" % (
+                        tag, n, f[n], tol, n, cmax, abs(f[n]) * cmax)))
+                else:
+                    problems.append(("sign: negative mixing fraction", "%s: fraction of solution %d = %r" % (tag, n, f[n])))
         for p in phases:
             c = (constraint[p] or "")[:1].lower()
             if c == "d" and t[p] < -tol:
@@ -497,15 +504,18 @@ def judge(problem, stoich, out, selstr):
                 problems.append(("report: table of a contributing solution missing", "%s: solution %d has fraction %r but no Input/Delta table" % (tag, n, f[n])))
         for n in present:
             tab = mod["solutions"][n]
+            dex = []                     # (index into problems, |delta| - allowed) of this solution's delta failures
             for rname, (cin, d, cs, tin, td, ts) in tab.items():
                 if rname == "pH":
                     if abs(d) > u_ph[n] + half_ulp_e3(td):
+                        dex.append((len(problems), abs(d) - u_ph[n]))
                         problems.append(("delta: pH adjustment exceeds uncertainty", "%s: solution %d pH delta %s, declared uncertainty %r" % (tag, n, td, u_ph[n])))
                     continue
                 if rname == "Alkalinity":
                     u = unc_of("Alkalinity", n)
                     b = u * (abs(cin) + half_ulp_e3(tin)) if u > 0 else -u
                     if abs(d) > b + half_ulp_e3(td) + tol:
+                        dex.append((len(problems), abs(d) - b))
                         problems.append(("delta: alkalinity adjustment exceeds uncertainty", "%s: solution %d alkalinity %s delta %s, uncertainty %r" % (tag, n, tin, td, u)))
                     continue
                 if re.match(r"^\d", rname):
@@ -515,8 +525,15 @@ def judge(problem, stoich, out, selstr):
                     problems.append(("input: printed analysis != input text", "%s: solution %d %s printed %s, input text says %r mol" % (tag, n, rname, tin, c)))
                 b = bound_of(rname, n, c)
                 if abs(d) > b + half_ulp_e3(td) + tol:
+                    dex.append((len(problems), abs(d) - b))
                     problems.append(("delta: element adjustment exceeds uncertainty",
                                      "%s: solution %d %s input %r delta %s; declared uncertainty %r allows %r" % (tag, n, rname, c, td, unc_of(rname, n), b)))
+            for i, exc in dex:
+                problems[i] = (problems[i][0], "%s; mixing fraction of solution %d = %r" % (problems[i][1], n, f[n]))
+                if abs(f[n]) * exc <= tol:
+                    # the library's unknowns are f and the product f*delta (accurate to the solver tolerance); it prints
+                    # (f*delta)/f for every solution with |f| > tolerance
+                    problems[i] = (FP_DELTA_TINY, "%s: |f| x excess = %.3g <= solver tolerance %g [%s]" % (problems[i][1], abs(f[n]) * exc, tol, problems[i][0]))
         # ---- (ii) mole balance per element
         rownames = set()
         for n in present:
@@ -575,7 +592,7 @@ def judge(problem, stoich, out, selstr):
         # ---- attribute the failures of this model to a mechanism the library's own output identifies
         for i in range(start, len(problems)):
             fp, what = problems[i]
-            if fp == FP_RANGE_PRUNED or fp.startswith("report:") or fp.startswith("input:"):
+            if fp in (FP_RANGE_PRUNED, FP_DELTA_TINY, FP_SIGN_TINY) or fp.startswith("report:") or fp.startswith("input:"):
                 continue
             what = "%s [%s]" % (what, fp)
             if fp.startswith("range:"):
